@@ -3,10 +3,21 @@
 (* strings by the real code.  Single code points: the boundary set of the UTF-16  *)
 (* coding plus a seeded sample of scalar values; strings: all strings of length   *)
 (* 2..MaxLen over the printable boundary alphabet E2E plus seeded longer ones.    *)
-(* e2e = TRUE: also store/read the text through document properties, keywords and *)
-(* bookmark titles of a real PDF.                                                 *)
+(* Syntax-spelling texts: texts whose stored bytes (UTF-16BE, and the plain ASCII  *)
+(* code points) spell PDF syntax - keywords, delimiters, comment starts, unbalanced*)
+(* parentheses, backslash sequences - followed by a NUL / white space / other     *)
+(* byte: keyword x coding (alignment in the code unit) x follower x position      *)
+(* (start / middle / end of the text) x length class (short, crossing a 1 KiB     *)
+(* reader buffer, several KiB).                                                   *)
+(* A case is [cps, pre, post, fill, vias, unit, tag]: the text is pre copies of   *)
+(* the code point fill, then cps, then post copies of fill; unit = also a unit    *)
+(* record; vias = the carriers (property, keyword, bookmark) of a real PDF the     *)
+(* text is stored in and read back from.                                          *)
 EXTENDS Lex, TLC, Json
-CONSTANTS Seed, NSample, MaxLen, PairN, NRandStr
+CONSTANTS Seed, NSample, MaxLen, PairN, NRandStr,
+          SynFolN,        \* how many followers (prefix of Fols) the short syntax-spelling texts use
+          SynLongFolN,    \* ... and the long ones
+          SynLongAllVias  \* long texts through all carriers (else documents properties only)
 VARIABLE c
 
 Boundary == { 0, 8, 9, 10, 12, 13, 32, 40, 41, 92, 127, 128, 160, 255, 256, 2047, 2048, 4095, 4096,
@@ -26,11 +37,67 @@ RECURSIVE RandStr(_, _)
 RandStr(x, n) == IF n = 0 THEN <<>> ELSE <<E2E[(x % Len(E2E)) + 1]>> \o RandStr(LCG(x), n - 1)
 RandCase(k) == LET x0 == LCG(((Seed % 65537) * 104729 + k * 7919) % 65537) IN RandStr(LCG(x0), MaxLen + 1 + (x0 % 4))
 
-Cases == {[cps |-> <<cp>>, e2e |-> cp \in E2ESet] : cp \in Boundary \cup Sample \cup E2ESet}
-         \cup {[cps |-> t, e2e |-> TRUE] : t \in UNION {[1..n -> {E2E[i] : i \in 1..PairN}] : n \in 2..MaxLen}}
-         \cup {[cps |-> RandCase(k), e2e |-> TRUE] : k \in 1..NRandStr}
+AllVias == <<"property", "keyword", "bookmark">>
+Plain(cps, e2e) == [cps |-> cps, pre |-> 0, post |-> 0, fill |-> 120, vias |-> (IF e2e THEN AllVias ELSE <<>>), unit |-> TRUE, tag |-> ""]
 
-Init == c \in Cases
+(* ---- syntax-spelling texts ---- *)
+KW == << [n |-> "endobj",    b |-> <<101, 110, 100, 111, 98, 106>>],
+         [n |-> "stream",    b |-> <<115, 116, 114, 101, 97, 109>>],
+         [n |-> "endstream", b |-> <<101, 110, 100, 115, 116, 114, 101, 97, 109>>],
+         [n |-> "obj",       b |-> <<111, 98, 106>>],
+         [n |-> "xref",      b |-> <<120, 114, 101, 102>>],
+         [n |-> "trailer",   b |-> <<116, 114, 97, 105, 108, 101, 114>>],
+         [n |-> "startxref", b |-> <<115, 116, 97, 114, 116, 120, 114, 101, 102>>],
+         [n |-> "R",         b |-> <<82>>],
+         [n |-> "ref",       b |-> <<49, 32, 48, 32, 82>>],          \* 1 0 R
+         [n |-> "dictend",   b |-> <<62, 62>>],
+         [n |-> "dictbegin", b |-> <<60, 60>>],
+         [n |-> "comment",   b |-> <<37>>],
+         [n |-> "lparen",    b |-> <<40>>],
+         [n |-> "rparen",    b |-> <<41>>],
+         [n |-> "parens",    b |-> <<41, 40>>],
+         [n |-> "backslash", b |-> <<92>>],
+         [n |-> "bslparen",  b |-> <<92, 41>>],
+         [n |-> "bsloctal",  b |-> <<92, 49, 48, 49>>] >>
+Fols == <<0, 32, 10, 65, 13, 9, 12>>            \* the byte after the keyword: NUL SP LF 'A' CR TAB FF
+Codings == <<"u16a0", "u16a1", "ascii">>        \* keyword starts at the high / at the low byte of a code unit / one byte per character
+Fill == 120                                     \* 'x' (UTF-16BE 00 78)
+RECURSIVE Units(_)
+Units(bs) == IF bs = <<>> THEN <<>> ELSE <<bs[1] * 256 + bs[2]>> \o Units(SubSeq(bs, 3, Len(bs)))
+Even(bs) == IF Len(bs) % 2 = 1 THEN bs \o <<65>> ELSE bs
+Spell(b, f, coding) == CASE coding = "u16a0" -> Units(Even(b \o <<f>>))
+                         [] coding = "u16a1" -> Units(Even(<<78>> \o b \o <<f>>))
+                         [] coding = "ascii" -> b \o <<f>>
+Rep(n) == [i \in 1..n |-> Fill]
+WS == {9, 10, 11, 12, 13, 32, 133, 160, 5760, 8232, 8233, 8239, 8287, 12288} \cup (8192..8202)
+(* carriers that keep a text verbatim by design: keywords are split at , ; CR and trimmed, bookmark titles drop control bytes *)
+ViasFor(full, all) ==
+  SelectSeq(AllVias, LAMBDA v :
+     CASE v = "property" -> TRUE
+       [] v = "keyword"  -> all /\ (\A i \in 1..Len(full) : full[i] \notin {44, 59, 13}) /\ full[1] \notin WS /\ full[Len(full)] \notin WS
+       [] v = "bookmark" -> all /\ (\A i \in 1..Len(full) : full[i] >= 32))
+LenClasses == <<[n |-> "short", k |-> 4], [n |-> "1k", k |-> 600], [n |-> "4k", k |-> 2100]>>
+PosSplit(pos, k) == CASE pos = "start" -> <<0, k>> [] pos = "mid" -> <<k \div 2, k - (k \div 2)>> [] pos = "end" -> <<k, 0>>
+F2(f) == IF f < 16 THEN "0" \o ToString(f) ELSE ToString(f)
+SynCase(kw, coding, f, pos, lc) ==
+  LET sp == Spell(kw.b, f, coding)
+      pp == PosSplit(pos, lc.k)
+      tag == kw.n \o "|" \o coding \o "|f" \o F2(f) \o "|" \o pos \o "|" \o lc.n
+  IN IF lc.n = "short"
+       THEN LET full == Rep(pp[1]) \o sp \o Rep(pp[2]) IN
+            [cps |-> full, pre |-> 0, post |-> 0, fill |-> Fill, vias |-> ViasFor(full, TRUE), unit |-> TRUE, tag |-> tag]
+       ELSE [cps |-> sp, pre |-> pp[1], post |-> pp[2], fill |-> Fill,
+             vias |-> ViasFor((IF pp[1] > 0 THEN <<Fill>> ELSE <<>>) \o sp \o (IF pp[2] > 0 THEN <<Fill>> ELSE <<>>), SynLongAllVias),
+             unit |-> FALSE, tag |-> tag]
+
+Init ==
+  \/ \E cp \in Boundary \cup Sample \cup E2ESet : c = Plain(<<cp>>, cp \in E2ESet)
+  \/ \E n \in 2..MaxLen : \E t \in [1..n -> {E2E[i] : i \in 1..PairN}] : c = Plain(t, TRUE)
+  \/ \E k \in 1..NRandStr : c = Plain(RandCase(k), TRUE)
+  \/ \E k \in 1..Len(KW), cd \in 1..3, f \in 1..SynFolN, pos \in {"start", "mid", "end"} :
+        c = SynCase(KW[k], Codings[cd], Fols[f], pos, LenClasses[1])
+  \/ \E k \in 1..Len(KW), cd \in 1..2, f \in 1..SynLongFolN, pos \in {"start", "mid", "end"}, lc \in 2..3 :
+        c = SynCase(KW[k], Codings[cd], Fols[f], pos, LenClasses[lc])
 Next == FALSE /\ UNCHANGED c
 Spec == Init /\ [][Next]_c
 
@@ -41,5 +108,14 @@ CodingShape == \A i \in 1..Len(c.cps) : LET u == Utf16BE(c.cps[i]) IN
                  /\ \A j \in 1..Len(u) : u[j] \in Byte
                  /\ Len(u) = 4 => (u[1] \in 216..219 /\ u[3] \in 220..223)
                  /\ \A j \in 1..Len(Utf8(c.cps[i])) : Utf8(c.cps[i])[j] \in Byte
+(* a syntax-spelling text really contains keyword + follower in its reference coding (UTF-16BE resp. the code points) *)
+RECURSIVE Body16(_)
+Body16(cps) == IF cps = <<>> THEN <<>> ELSE Utf16BE(Head(cps)) \o Body16(Tail(cps))
+Contains(hay, needle) == \E i \in 0..(Len(hay) - Len(needle)) : SubSeq(hay, i + 1, i + Len(needle)) = needle
+SpellsIt == \A k \in 1..Len(KW), f \in 1..Len(Fols) :
+              /\ Contains(Body16(Spell(KW[k].b, Fols[f], "u16a0")), KW[k].b \o <<Fols[f]>>)
+              /\ Contains(Body16(Spell(KW[k].b, Fols[f], "u16a1")), KW[k].b \o <<Fols[f]>>)
+              /\ Spell(KW[k].b, Fols[f], "ascii") = KW[k].b \o <<Fols[f]>>
+ASSUME SpellsIt
 EmitCase == PrintT(<<"CASE", ToJson(c)>>)
 =============================================================================
